@@ -130,7 +130,33 @@ func c03Append(r *core.Run, worker int, p adapt.Parser, in *Input) {
 	}
 	w := in.Bytes[:in.BaseLen]
 	rw, ok := c03Parse(r, worker, p, w)
-	if !ok || !rw.OK || !rw.HasRem {
+	if !ok || !rw.OK {
+		return
+	}
+	if !rw.HasRem && p.Family != "LeaseSet" {
+		return // exact-length constructors take the whole input as the value: not framing parsers
+	}
+	if !rw.HasRem {
+		// an entry point that reports no remainder but tolerates trailing data (the legacy LeaseSet reader): the
+		// VALUE must not depend on what follows the structure
+		res, ok := c03Parse(r, worker, p, in.Bytes)
+		if !ok || rw.Ser == nil {
+			return
+		}
+		r.Traces.Add(1)
+		if !res.OK {
+			return // refusing trailing data altogether is a (consistent) policy, not a framing error
+		}
+		var s1, s2 []byte
+		core.Guard(func() {
+			if res.Ser != nil {
+				s1, _ = rw.Ser()
+				s2, _ = res.Ser()
+			}
+		})
+		if !bytes.Equal(s1, s2) {
+			r.Violate(fmt.Sprintf("C03|%s|%s|%s|append-changes-result", p.Name, in.Family, in.Class), fmt.Sprintf("%s: the value parsed from w (%d bytes) and from w++x (%d bytes appended) serialise differently (%s)", p.Name, len(w), len(in.Bytes)-len(w), in.Base), in.Case(p.Name))
+		}
 		return
 	}
 	res, ok := c03Parse(r, worker, p, in.Bytes)
@@ -174,6 +200,22 @@ func runC03(r *core.Run) {
 				c03Check(r, worker, p, in, base)
 				if strings.HasPrefix(in.Class, "append") {
 					c03Append(r, worker, p, in)
+				}
+			}
+		}
+		// every appended LENGTH 1..300 (two fills) for the all-default base of every family, and for every
+		// LeaseSet base: a decision taken from the number of bytes that follow shows at one length only
+		if in.Class == "base" && (len(in.Devs) == 0 || in.Family == "LeaseSet") {
+			for n := 1; n <= 300; n++ {
+				for _, fill := range []byte{0x00, 0xff} {
+					m := *in
+					m.Bytes = append(append([]byte(nil), in.Bytes...), bytes.Repeat([]byte{fill}, n)...)
+					m.Class = "append(every-length)"
+					for _, fam := range parserFamiliesFor(in.Family, in.Aux) {
+						for _, p := range adapt.ByFamily(fam) {
+							c03Append(r, worker, p, &m)
+						}
+					}
 				}
 			}
 		}
